@@ -605,7 +605,15 @@ pub fn gen_hist<W: Write>(prop: &str, r: &mut Rng, thorough: bool, out: &mut W) 
             "C08" => {
                 let names = &t0.names;
                 let n = names.len();
-                let del: Vec<String> = match r.below(9) {
+                let del: Vec<String> = match r.below(11) {
+                    // a name given twice is one sample: all samples named (one of them twice) must be refused,
+                    // a proper subset named with a repetition must be deleted
+                    9 => {
+                        let mut v = names.clone();
+                        v.push(names[r.below(n)].clone());
+                        v
+                    }
+                    10 => vec![names[0].clone(), names[0].clone()],
                     0 => vec![names[0].clone()],
                     1 => vec![names[n - 1].clone()],
                     2 => names.iter().take(usize::max(1, n / 2)).cloned().collect(),
